@@ -1,3 +1,4 @@
+pub mod capi;
 pub mod child;
 pub mod dump;
 pub mod r#gen;
